@@ -2,7 +2,10 @@ HOOK_COMMITS = ["e643c2f", "ac5abb7", "f73553e", "1ca5c04", "578d2b5", "4b8c6d3"
 
 NOTES = ("Technique: machine-checked proof in Lean 4 of properties of hand-written models, tied to /repo on every run by a "
          "correspondence check (and regenerated source facts). See DESIGN.md. A property moves from not_applicable to checks "
-         "when its check is built and green on the unchanged tree.")
+         "when its check is built and green on the unchanged tree. Hook commits in /repo all carry the subject prefix 'verif:' "
+         "(source_commits is read from git); two of them (29bd9cf, f4267f3) delete yield-point lines that earlier hook commits had "
+         "added inside code windows which the following fix: commits removed — relative to the pinned snapshot the hooks only add code. "
+         "fix: commits (genuine defects repaired) are listed in known_findings.jsonl as fixed entries.")
 
 NOT_BUILT = "check not built yet (planned, see DESIGN.md section for this property); will be claimed when its proof and correspondence run exist"
 
